@@ -444,14 +444,18 @@ func (p *Proxy) handleConnectRequest(ctx *Context, req *http.Request, session *S
 			// The CONNECT exchange is over: its context is not retrievable while the
 			// requests inside the tunnel are handled.
 			unlink(req)
-			return p.handle(ctx, nconn, brw)
+			// The requests inside the tunnel are handled by the caller's loop, on the
+			// session's new connection. (Handling the first one from here made every
+			// CONNECT nested in a tunnel a level of recursion that lasted as long as the
+			// connection: a few megabytes of nested CONNECTs overflowed the stack.)
+			return nil
 		}
 
 		// Prepend the previously read data to be read again by http.ReadRequest.
 		brw.Reader.Reset(io.MultiReader(bytes.NewReader(b), bytes.NewReader(buf), conn))
 		unlink(req)
 		endIdle()
-		return p.handle(ctx, conn, brw)
+		return nil
 	}
 
 	if ctx.SkippingRoundTrip() {
